@@ -25,7 +25,7 @@ let range_of_string (s : string) : range =
 
 let show_item (it : item) : string =
   Printf.sprintf "%s/%s/%s/%s/%s" (match it.i_kind with IClass -> "c" | IFunc -> "f" | IField -> "v")
-    (dash_of_str it.i_name) (dash_of_str it.i_stem) (show_range it.i_sel) (show_range it.i_range)
+    (dash_of_str it.i_name) (dash_of_str it.i_uri) (show_range it.i_sel) (show_range it.i_range)
 
 let item_of_string (s : string) : item option =
   match split '/' s with
@@ -33,7 +33,7 @@ let item_of_string (s : string) : item option =
     (match k with
      | "c" | "f" | "v" ->
        Some { i_name = cps_or_dash n; i_kind = (if k = "c" then IClass else if k = "f" then IFunc else IField);
-              i_stem = cps_or_dash st; i_sel = range_of_string a; i_range = range_of_string b }
+              i_uri = cps_or_dash st; i_sel = range_of_string a; i_range = range_of_string b }
      | _ -> None)
   | _ -> None
 
